@@ -18,10 +18,10 @@ RULE = ('Case = (small multi-chunk tree, settings, N in 1..8, operation in {snap
         'task boundaries inside replicat.repository sleep according to the delay schedule (sys.setswitchinterval lowered). '
         'Oracle: the command ends without error with the model\'s result (independent reader + restored bytes/mtimes), '
         'calls in flight never exceed N, all N slots are back after success and after an injected failure (once the loop has '
-        'drained), and nothing hangs (hang = nothing parked and nothing finished for 20 s). Non-trivial: >=2 calls were '
+        'drained), and nothing hangs (hang = nothing parked and nothing finished for 30 s; 60 s for the threaded flavour). Non-trivial: >=2 calls were '
         'pending at once and released out of arrival order, or >=1 injected delay hit a lock/queue/task boundary.')
 ASSUMPTIONS = ['completion orders are owned and enumerated by the harness; pre-emption inside lock-free Python code is only sampled',
-               'a wall-clock rule decides "hang" (20 s without any progress on a workload that normally takes milliseconds)']
+               'a wall-clock rule decides "hang" (30 s / 60 s without any progress on a workload that normally takes milliseconds)']
 
 
 def budget(tier):
@@ -146,13 +146,13 @@ def _run(case, work):
         hang = None
         try:
             if case['flavour'] == 'controlled':
-                await control.drive(gate, case['schedule'], tasks, n)
+                await control.drive(gate, case['schedule'], tasks, n, hang_after=30)
             else:
                 t0 = time.monotonic()
                 while not all(t.done() for t in tasks):
                     await control._real_sleep(0.002)
-                    if time.monotonic() - t0 > 25:
-                        raise control.Hang('command did not finish within 25 s (workload of milliseconds)')
+                    if time.monotonic() - t0 > 60:
+                        raise control.Hang('command did not finish within 60 s (workload of milliseconds)')
         except control.Hang as e:
             hang = e
             for t in tasks:
@@ -292,13 +292,13 @@ def _run(case, work):
         hang = None
         try:
             if case['flavour'] == 'controlled':
-                await control.drive(gate, case['schedule'], [task], n)
+                await control.drive(gate, case['schedule'], [task], n, hang_after=30)
             else:
                 t0 = time.monotonic()
                 while not task.done():
                     await control._real_sleep(0.002)
-                    if time.monotonic() - t0 > 25:
-                        raise control.Hang('restore on a reused Repository did not finish within 25 s')
+                    if time.monotonic() - t0 > 60:
+                        raise control.Hang('restore on a reused Repository did not finish within 60 s')
         except control.Hang as e:
             hang = e
             task.cancel()
@@ -321,9 +321,9 @@ def _run(case, work):
     with world.capture():
         th = threading.Thread(target=runner, name='c09-loop', daemon=True)
         th.start()
-        th.join(150)
+        th.join(300)
     if th.is_alive():
-        failure = fail('hang', f'{case["op"]} with N={n}: the event loop stopped responding (no progress for 150 s; the harness\'s own '
+        failure = fail('hang', f'{case["op"]} with N={n}: the event loop stopped responding (no progress for 300 s; the harness\'s own '
                        f'controller runs on that loop and was frozen with it)', phase='event-loop')
     elif 'error' in box:
         raise box['error']
